@@ -642,7 +642,8 @@ class MappingSchema(AbstractMappingSchema, Schema):
 
         dialect = dialect or self.dialect
         name_str = name if isinstance(name, str) else name.name
-        cache_key = (name_str, dialect, is_table, normalize)
+        quoted = not isinstance(name, str) and bool(name.quoted)
+        cache_key = (name_str, quoted, dialect, is_table, normalize)
 
         if cached := self._normalized_name_cache.get(cache_key):
             return cached
